@@ -35,9 +35,16 @@ type shardCtx struct {
 	shard, shards int
 	tier          string
 	res           *shardResult
+	journalPath   string
 }
 
 func (c *shardCtx) mine(i int) bool { return i%c.shards == c.shard }
+
+// journal records the case a worker is about to run, so that a fatal runtime
+// error (which can not be recovered) can be attributed by the parent.
+func (c *shardCtx) journal(what string) {
+	os.WriteFile(c.journalPath, []byte(what), 0o644)
+}
 func (c *shardCtx) add(k string, d int64) { c.res.Counters[k] += d }
 func (c *shardCtx) thorough() bool   { return c.tier == "thorough" }
 func (c *shardCtx) report(v harness.Violation) {
@@ -61,13 +68,25 @@ type workerFn func(c *shardCtx)
 var workers = map[string]workerFn{}
 
 // finishers turn merged shard results into the evidence of a property.
+// preparers run once in the parent before the workers start.
+var preparers = map[string]func(r *harness.Run){}
+
+// freshModes answer "-fresh <i> -mode <m>" requests: one call in a brand-new process.
+var freshModes = map[string]func(i int, mode string) string{}
+
 var finishers = map[string]func(r *harness.Run, counters map[string]int64, notes map[string]interface{}) harness.Coverage{}
 
 func main() {
 	prop := flag.String("prop", "", "property id")
 	tier := flag.String("tier", "quick", "quick|thorough")
 	shard := flag.String("shard", "", "i/n (worker mode)")
+	fresh := flag.Int("fresh", -1, "fresh-process reference mode: index")
+	mode := flag.String("mode", "", "fresh-process reference mode: operation")
 	flag.Parse()
+	if *fresh >= 0 {
+		fmt.Println("FRESH-RESULT " + freshModes[*prop](*fresh, *mode))
+		return
+	}
 	fn, ok := workers[*prop]
 	if !ok {
 		harness.Fatal("vsched: unknown property %q", *prop)
@@ -76,7 +95,8 @@ func main() {
 		parts := strings.Split(*shard, "/")
 		i, _ := strconv.Atoi(parts[0])
 		n, _ := strconv.Atoi(parts[1])
-		c := &shardCtx{shard: i, shards: n, tier: *tier, res: &shardResult{Counters: map[string]int64{}, Notes: map[string]interface{}{}}}
+		c := &shardCtx{shard: i, shards: n, tier: *tier, res: &shardResult{Counters: map[string]int64{}, Notes: map[string]interface{}{}},
+			journalPath: fmt.Sprintf("%s/bin/journal-%s-%d.txt", harness.Root, *prop, i)}
 		fn(c)
 		out := bufio.NewWriter(os.Stdout)
 		js, _ := json.Marshal(c.res)
@@ -92,11 +112,15 @@ func main() {
 		harness.Fatal("reference model disagrees with the compliance corpus; refusing to judge")
 	}
 	r.Note("instrumentation", fmt.Sprintf("%d statement points; constructs met: %s", len(jmespath.VerifSites), jmespath.VerifInstrumentReport))
+	if p := preparers[*prop]; p != nil {
+		p(r)
+	}
 	n := harness.Workers()
 	self, _ := os.Executable()
 	results := make([]*shardResult, n)
 	var wg sync.WaitGroup
 	var failed []string
+	var crashes []harness.Violation
 	var mu sync.Mutex
 	for i := 0; i < n; i++ {
 		wg.Add(1)
@@ -104,7 +128,8 @@ func main() {
 			defer wg.Done()
 			cmd := exec.Command(self, "-prop", *prop, "-tier", r.Tier, "-shard", fmt.Sprintf("%d/%d", i, n))
 			cmd.Env = append(os.Environ(), "GOMAXPROCS=2")
-			cmd.Stderr = os.Stderr
+			var errBuf strings.Builder
+			cmd.Stderr = &errBuf
 			out, err := cmd.Output()
 			var res *shardResult
 			for _, line := range strings.Split(string(out), "\n") {
@@ -116,12 +141,28 @@ func main() {
 				}
 			}
 			if res == nil {
+				// the worker died (fatal runtime error, os.Exit, kill): attribute it to the journaled case
 				mu.Lock()
-				tail := string(out)
-				if len(tail) > 2000 {
-					tail = tail[len(tail)-2000:]
+				stderr := errBuf.String()
+				head := stderr
+				if len(head) > 1500 {
+					head = head[:1500]
 				}
-				failed = append(failed, fmt.Sprintf("shard %d: %v\n%s", i, err, tail))
+				journal, _ := os.ReadFile(fmt.Sprintf("%s/bin/journal-%s-%d.txt", harness.Root, *prop, i))
+				cause := "worker process died: " + fmt.Sprint(err)
+				for _, l := range strings.Split(stderr, "\n") {
+					if strings.HasPrefix(l, "fatal error:") || strings.HasPrefix(l, "panic:") || strings.HasPrefix(l, "TOOLING-ERROR") {
+						cause = l
+						break
+					}
+				}
+				if strings.HasPrefix(cause, "TOOLING-ERROR") {
+					failed = append(failed, fmt.Sprintf("shard %d: %s", i, cause))
+				} else {
+					crashes = append(crashes, harness.Violation{Kind: "crash", Signature: "worker-crash:" + cause,
+						Input:    map[string]interface{}{"last_journaled_case": string(journal)},
+						Expected: "the library returns on every case", Observed: cause + " — stderr begins: " + head})
+				}
 				mu.Unlock()
 				return
 			}
@@ -137,7 +178,14 @@ func main() {
 	}
 	counters := map[string]int64{}
 	notes := map[string]interface{}{}
+	for _, cv := range crashes {
+		r.Report(cv)
+		r.Cap("a worker process crashed; its share of the universe was not completed")
+	}
 	for _, res := range results {
+		if res == nil {
+			continue
+		}
 		for k, v := range res.Counters {
 			counters[k] += v
 		}
